@@ -64,6 +64,20 @@ CutPub(c) == /\ Quiet /\ ncuts < MaxCuts /\ \E p \in Pubs : ConnOf(p) = c /\ pst
              /\ pstat' = [p \in Pubs |-> IF ConnOf(p) = c /\ pstat[p] = "up" THEN "down" ELSE pstat[p]]
              /\ ncuts' = ncuts + 1
              /\ UNCHANGED <<sstat, sentn, owed, opt, got>>
+\* The connection of handle p is lost in the middle of a write: m large messages have been handed to p and
+\* only part of their bytes has left -- a frame may be cut anywhere.  What was handed over and has not
+\* arrived may be lost, like the message that detects the outage; nothing else may, and whatever the old
+\* stream still held stays behind with it (the new stream starts on a frame boundary).
+CutPubMid(p, m) ==
+    /\ Quiet /\ ncuts < MaxCuts /\ pstat[p] = "up" /\ m \in 1..3 /\ sentn[p] + m <= MaxItems
+    /\ LET c == ConnOf(p)
+           new == [i \in 1..m |-> sentn[p] + i] IN
+       /\ sentn' = [sentn EXCEPT ![p] = @ + m]
+       /\ opt' = [opt EXCEPT ![p] = @ \cup {new[i] : i \in 1..m}]
+       /\ owed' = [s \in Subs |-> IF sstat[s] = "up" THEN [owed[s] EXCEPT ![p] = @ \o new] ELSE owed[s]]
+       /\ pstat' = [q \in Pubs |-> IF ConnOf(q) = c /\ pstat[q] = "up" THEN "down" ELSE pstat[q]]
+    /\ ncuts' = ncuts + 1
+    /\ UNCHANGED <<sstat, got>>
 \* a subscriber's connection is lost; it re-registers before anything else is published
 CutSub(s) == /\ Quiet /\ ncuts < MaxCuts /\ sstat[s] = "up"
              /\ sstat' = [sstat EXCEPT ![s] = IF ResubscribeAfterLoss THEN "up" ELSE "gone"]
@@ -81,6 +95,7 @@ Receive(s, p, n) ==
     /\ UNCHANGED <<pstat, sstat, sentn, opt, ncuts>>
 
 LNext == \/ \E p \in Pubs : OpenPub(p) \/ Publish(p) \/ Finish(p) \/ CutPub(p)
+         \/ \E p \in Pubs, m \in 1..3 : CutPubMid(p, m)
          \/ \E s \in Subs : OpenSub(s) \/ CutSub(s)
          \/ \E s \in Subs, p \in Pubs, n \in 1..MaxItems : Receive(s, p, n)
 LSpec == LInit /\ [][LNext]_lvars
